@@ -919,7 +919,16 @@ func c04DistinctArgs(r *core.Run) {
 				}
 				a, b := c.Args[i+off], c.Args[i+1+off]
 				n++
-				r.Check(core.Canon(a) != core.Canon(b) || a.Name() != b.Name() && false, "C04.ARGS", core.FuncName(fn)+"→"+g.Name()+fmt.Sprintf("#arg%d≠arg%d", i, i+1), in.Pos(), "the old and the new side are different values", "both the old-side and the new-side parameter of "+core.FuncName(g)+" receive "+core.Canon(a)+": the function is compared with itself, so every behaviour change comes out as preserved")
+				// the same SSA value, or two reads of the same field / variable
+				same := a == b
+				if !same {
+					_, la := core.Unwrap(a).(*ssa.UnOp)
+					_, lb := core.Unwrap(b).(*ssa.UnOp)
+					_, fa := core.Unwrap(a).(*ssa.Field)
+					_, fb := core.Unwrap(b).(*ssa.Field)
+					same = ((la && lb) || (fa && fb)) && core.Canon(a) == core.Canon(b)
+				}
+				r.Check(!same, "C04.ARGS", core.FuncName(fn)+"→"+g.Name()+fmt.Sprintf("#arg%d≠arg%d", i, i+1), in.Pos(), "the old and the new side are different values", "both the old-side and the new-side parameter of "+core.FuncName(g)+" receive "+core.Canon(a)+": the function is compared with itself, so every behaviour change comes out as preserved")
 			}
 		})
 	}
